@@ -220,7 +220,9 @@ pub fn gen(rng: &mut Rng, size: usize) -> Value {
             1 => vec![json!({"op": "get_line", "i": n + 5}), json!({"op": "line_count"})],
             _ => vec![json!({"op": "get_line", "i": n - 1}), json!({"op": "get_line", "i": 0})],
         }).collect();
-        return json!({"op": "stress", "rep": {"unit": [97], "sep": [10], "n": n}, "calls": calls});
+        let sep: Vec<u32> = rng.pick(&[vec![10u32], vec![13], vec![13, 10]]).clone();
+        let unit: Vec<u32> = rng.pick(&[vec![97u32], vec![97, 98, 99], vec![]]).clone();
+        return json!({"op": "stress", "rep": {"unit": unit, "sep": sep, "n": n}, "calls": calls});
     }
     let nthr = 2 + rng.below(3) as usize;
     let n = rng.below((size * 6) as u64 + 1) as usize;
